@@ -134,6 +134,35 @@ fn main() {
             }
             println!("RESULT enum:zinc-encode-panics {n} scalar values encoded to Zinc, Hayson and display text without a panic");
         }
+        // ---- C17 enumerator: list handles against Vec semantics, all ops x indices 0..=3 on lists of length 0..=2; exit 3 on mismatch
+        "enum:capi-list" => unsafe {
+            use libhaystack::c_api::list::*;
+            use libhaystack::c_api::value::*;
+            use libhaystack::c_api::ResultType;
+            let items = [Value::make_int(1), Value::make_str("s"), Value::make_marker()];
+            for len in 0..=2usize { for idx in 0..=3usize { for op in 0..3 {
+                let mut model: Vec<Value> = items[..len].to_vec();
+                let h = Box::into_raw(haystack_value_make_list());
+                for it in &model { let e = Box::into_raw(Box::new(it.clone())); haystack_value_push_list_entry(h, e); drop(Box::from_raw(e)); }
+                let e = Box::into_raw(Box::new(Value::make_na()));
+                let (r, name) = match op {
+                    0 => (haystack_value_set_list_entry_at(h, idx, e), "set"),
+                    1 => (haystack_value_remove_list_entry_at(h, idx), "remove"),
+                    _ => (haystack_value_push_list_entry(h, e), "push"),
+                };
+                let want_ok = match op { 0 => { if idx < len { model[idx] = Value::make_na(); true } else { false } }
+                                         1 => { if idx < len { model.remove(idx); true } else { false } }
+                                         _ => { model.push(Value::make_na()); true } };
+                let got: Vec<Value> = match &*h { Value::List(l) => l.clone(), _ => vec![] };
+                let ok = (r == ResultType::TRUE) == want_ok && got == model && haystack_value_get_list_len(h) == model.len();
+                if !ok {
+                    println!("RESULT enum:capi-list op={name} index={idx} on a list of {len}: returned {r:?}, handle now {got:?}, Vec semantics {model:?}");
+                    std::process::exit(3);
+                }
+                drop(Box::from_raw(e)); drop(Box::from_raw(h));
+            } } }
+            println!("RESULT enum:capi-list list handles agree with Vec semantics on all small cases");
+        },
         // ---- C06: RFC 3339 text -> DateTime keeps the instant (or is rejected); exit 3 = different instant
         "rfc3339" => {
             let text = &args[2];
